@@ -140,24 +140,32 @@ fn decoy(r: usize, j: usize) -> u32 {
 /// The rows of one dataset part as the real code returned / showed them (bit patterns).
 #[derive(Clone, Debug, PartialEq, Eq)]
 struct Part {
-    rec: Vec<Vec<u64>>,
-    tgt: Vec<Vec<u64>>,
+    rec: Vec<u64>, // row-major, rows x rec_cols
+    tgt: Vec<u64>, // row-major, trows x tgt_cols
+    rows: usize,
+    trows: usize,
     tdim: usize,
     rec_cols: usize,
     tgt_cols: usize,
 }
 
+impl Part {
+    fn rec_row(&self, r: usize) -> &[u64] {
+        &self.rec[r * self.rec_cols..(r + 1) * self.rec_cols]
+    }
+    fn tgt_row(&self, r: usize) -> &[u64] {
+        &self.tgt[r * self.tgt_cols..(r + 1) * self.tgt_cols]
+    }
+}
+
 fn part_of<F: Elem, E: Elem, D: Data<Elem = F>, S: Data<Elem = E>, I: Dimension>(r: &ArrayBase<D, Ix2>, t: &ArrayBase<S, I>) -> Part {
-    let rec: Vec<Vec<u64>> = r.rows().into_iter().map(|row| row.iter().map(|x| x.bits()).collect()).collect();
-    let td = t.view().into_dyn();
-    let (tgt, tgt_cols): (Vec<Vec<u64>>, usize) = if td.ndim() == 1 {
-        (td.iter().map(|x| vec![x.bits()]).collect(), 1)
-    } else {
-        let cols = td.shape()[1];
-        let rows = td.shape()[0];
-        ((0..rows).map(|i| (0..cols).map(|c| td[IxDyn(&[i, c])].bits()).collect()).collect(), cols)
-    };
-    Part { rec, tgt, tdim: td.ndim(), rec_cols: r.ncols(), tgt_cols }
+    // `iter()` walks in logical (row-major) order whatever the memory layout
+    let rec: Vec<u64> = r.iter().map(|x| x.bits()).collect();
+    let tgt: Vec<u64> = t.iter().map(|x| x.bits()).collect();
+    let tdim = t.ndim();
+    let trows = if tdim == 0 { 0 } else { t.shape()[0] };
+    let tgt_cols = if tdim >= 2 { t.shape()[1] } else { 1 };
+    Part { rec, tgt, rows: r.nrows(), trows, tdim, rec_cols: r.ncols(), tgt_cols }
 }
 
 /// Reference model of the dataset: plain vectors of tagged rows.
@@ -195,12 +203,12 @@ impl Ref {
         row.first().and_then(|b| self.tgt0.get(b)).cloned().filter(|&i| self.tgt[i] == row)
     }
     fn whole(&self) -> Part {
-        Part { rec: self.rec.clone(), tgt: self.tgt.clone(), tdim: self.tix, rec_cols: self.f, tgt_cols: self.t }
+        Part { rec: self.rec.concat(), tgt: self.tgt.concat(), rows: self.n, trows: self.n, tdim: self.tix, rec_cols: self.f, tgt_cols: self.t }
     }
     /// Decode the rows of a part to sample ids; `Err((shape-of-failure, message))`.
     fn decode(&self, p: &Part) -> Result<Vec<usize>, (&'static str, String)> {
-        if p.rec.len() != p.tgt.len() {
-            return Err(("records_targets_length_mismatch", format!("{} record rows but {} target rows", p.rec.len(), p.tgt.len())));
+        if p.rows != p.trows {
+            return Err(("records_targets_length_mismatch", format!("{} record rows but {} target rows", p.rows, p.trows)));
         }
         if p.tdim != self.tix || p.rec_cols != self.f || p.tgt_cols != self.t {
             return Err((
@@ -208,8 +216,9 @@ impl Ref {
                 format!("part has {} record columns, {}-d targets with {} columns; dataset has {}, {}-d, {}", p.rec_cols, p.tdim, p.tgt_cols, self.f, self.tix, self.t),
             ));
         }
-        let mut ids = Vec::with_capacity(p.rec.len());
-        for (r, (rec, tgt)) in p.rec.iter().zip(p.tgt.iter()).enumerate() {
+        let mut ids = Vec::with_capacity(p.rows);
+        for r in 0..p.rows {
+            let (rec, tgt) = (p.rec_row(r), p.tgt_row(r));
             let id = match self.rec_id(rec) {
                 Some(i) => i,
                 None => return Err(("foreign_record_row", format!("row {}: record bits {:?} are no row of the dataset", r, rec))),
@@ -467,12 +476,12 @@ fn fold_core<F: Elem, E: Elem, I: TargetDim, D: Data<Elem = F>, S: Data<Elem = E
             return;
         }
     };
-    if elems_form_possible && !pairs.is_empty() && pairs[0].1.rec.len() == fs_elems.min(c.n) {
+    if elems_form_possible && !pairs.is_empty() && pairs[0].1.rows == fs_elems.min(c.n) {
         viols.push(Violation::new(
             "fold.ix2_targets.fold_size_from_element_count",
             format!(
                 "fold({}) on {} samples with {} target columns: validation part 0 has {} samples = min(n, n*t div k = {}), expected n div k = {} ({} pairs returned)",
-                c.k, c.n, c.tcols, pairs[0].1.rec.len(), fs_elems, c.n / c.k, pairs.len()
+                c.k, c.n, c.tcols, pairs[0].1.rows, fs_elems, c.n / c.k, pairs.len()
             ),
             case_json(c),
         ));
@@ -526,10 +535,16 @@ fn restored_sig(op: &str, before: &Part, after: &Part) -> String {
 }
 
 fn ids_lossy(rf: &Ref, p: &Part) -> Vec<i64> {
-    p.rec.iter().map(|r| rf.rec_id(r).map(|x| x as i64).unwrap_or(-1)).collect()
+    if p.rec_cols != rf.f {
+        return vec![-1; p.rows];
+    }
+    (0..p.rows).map(|r| rf.rec_id(p.rec_row(r)).map(|x| x as i64).unwrap_or(-1)).collect()
 }
 fn tgt_ids_lossy(rf: &Ref, p: &Part) -> Vec<i64> {
-    p.tgt.iter().map(|r| rf.tgt_id(r).map(|x| x as i64).unwrap_or(-1)).collect()
+    if p.tgt_cols != rf.t {
+        return vec![-1; p.trows];
+    }
+    (0..p.trows).map(|r| rf.tgt_id(p.tgt_row(r)).map(|x| x as i64).unwrap_or(-1)).collect()
 }
 
 fn iter_fold_core<F: Elem, E: Elem, I: TargetDim, D: DataMut<Elem = F>, S: DataMut<Elem = E>>(
@@ -727,6 +742,7 @@ fn run_iter_fold<F: Elem, E: Elem, I: TargetDim>(c: &Case, viols: &mut Vec<Viola
 // ------------------------------------------------------------------------------------------------
 
 #[derive(Debug)]
+#[allow(dead_code)] // payloads are read through Debug
 enum MockError {
     Linfa(linfa::Error),
     Fit(String),
@@ -752,8 +768,8 @@ fn fp_row(rec: &[u64], tgt: &[u64]) -> u64 {
     }
     h
 }
-fn fingerprint(rec: &[Vec<u64>], tgt: &[Vec<u64>]) -> u64 {
-    rec.iter().zip(tgt.iter()).fold(0u64, |a, (r, t)| a.wrapping_add(fp_row(r, t)))
+fn fingerprint(p: &Part) -> u64 {
+    (0..p.rows.min(p.trows)).fold(0u64, |a, r| a.wrapping_add(fp_row(p.rec_row(r), p.tgt_row(r))))
 }
 /// Prediction of model `mid` (trained on rows with fingerprint `fp`) for the row with tag rowid.
 fn pred_value(rowid: f64, col: usize, mid: usize, fp: u64) -> f64 {
@@ -784,14 +800,14 @@ impl<'c, I: TargetDim> Fit<ArrayView2<'c, f64>, ArrayView<'c, f64, I>, MockError
         // which block is held out, judged from the rows actually shown
         let span = self.k * self.fs;
         let mut present = vec![false; span];
-        for r in part.rec.iter() {
-            let id = (f64::from_bits(r[0]) / 100.0).floor();
+        for r in 0..part.rows {
+            let id = (f64::from_bits(part.rec_row(r)[0]) / 100.0).floor();
             if id >= 0.0 && (id as usize) < span {
                 present[id as usize] = true;
             }
         }
         let held = present.iter().position(|&p| !p).map(|x| x / self.fs.max(1));
-        let fp = fingerprint(&part.rec, &part.tgt);
+        let fp = fingerprint(&part);
         let t = part.tgt_cols;
         self.log.borrow_mut().push(FitCall { part });
         if let (Some(ff), Some(h)) = (self.fail_fold, held) {
@@ -896,9 +912,7 @@ fn ref_cv(rf: &Ref, c: &Case) -> CvExpect {
     let mut acc = vec![vec![0.0f64; rf.t]; c.m];
     let mut eval_calls = Vec::new();
     for (train, valid) in folds.iter() {
-        let trec: Vec<Vec<u64>> = train.iter().map(|&i| rf.rec[i].clone()).collect();
-        let ttgt: Vec<Vec<u64>> = train.iter().map(|&i| rf.tgt[i].clone()).collect();
-        let fp = fingerprint(&trec, &ttgt);
+        let fp = train.iter().fold(0u64, |a, &i| a.wrapping_add(fp_row(&rf.rec[i], &rf.tgt[i])));
         let truth: Vec<Vec<f64>> = valid.iter().map(|&i| rf.tgt[i].iter().map(|&b| f64::from_bits(b)).collect()).collect();
         for mid in 0..c.m {
             let pred: Vec<Vec<f64>> = valid.iter().map(|&i| (0..rf.t).map(|cc| pred_value(i as f64, cc, mid, fp)).collect()).collect();
@@ -1211,7 +1225,7 @@ fn run_degenerate<I: TargetDim>(c: &Case, viols: &mut Vec<Violation>, cnt: &mut 
         match (class, r) {
             ("k1", Ok(list)) => {
                 cnt.bump("degenerate_iter_fold_k1_returned", 1);
-                let good = list.len() == 1 && list[0].0.rec.is_empty() && list[0].1 == rf.whole() && after == before;
+                let good = list.len() == 1 && list[0].0.rows == 0 && list[0].1 == rf.whole() && after == before;
                 if !good {
                     viols.push(Violation::new(
                         "iter_fold.k1.not_whole_dataset_as_single_validation_fold",
